@@ -134,6 +134,14 @@ class Interp:
                 return ("object", st["prop"])
             if e.id in m.list_flags:
                 return ("container", 1 if st["flags"].get(m.list_flags[e.id], False) else 0)
+            # a local temporary holding a state test / token condition (`is_final = state & (...)`): evaluate its definition
+            defs = [d for d in self.cfg.defs_reaching(e.id, node) if d.kind == "value" and d.value is not None]
+            if len(defs) == 1 and len(self.cfg.defs_reaching(e.id, node)) == 1 and defs[0].node is not node and not getattr(self, "_in_temp", False):
+                self._in_temp = True
+                try:
+                    return self.ev(defs[0].value, defs[0].node, st, tok)
+                finally:
+                    self._in_temp = False
         atom = m.atom_of(e, node)
         if atom is not None:
             self.atoms_seen.add(atom)
